@@ -18,9 +18,10 @@ NAMES = {"DownFailed", "UndoNotRestored"}
 
 def run(tier):
     v = vf.Verdict("C17", tier, "exploration")
-    viols, full, n, info = engine.run_engine(tier)
-    bad = engine.report(v, viols, full, NAMES)
-    nrev = sum(1 for o in full if o["reversible"])
+    # the engine part runs next to the two other parts (they share nothing)
+    from concurrent.futures import ThreadPoolExecutor
+    pool = ThreadPoolExecutor(max_workers=1)
+    fut = pool.submit(engine.run_engine, tier)
     # down files / Reversible flag through the formatters (observations of the C07 corpus, formulas DownStatementsDiffer / ReversibleFlag)
     b = vf.build_harness("core", "roundtrip")
     r = vf.tlc("LexerContents", "LexerContents.cfg", defines={"NQ": 1}, keep=True, timeout=600)
@@ -61,11 +62,15 @@ def run(tier):
                 v.violation(case, {"violated": names, "statements": c.get("stmts")})
         finally:
             vf.rm(dd)
+    viols, full, n, info = fut.result()
+    pool.shutdown()
+    bad = engine.report(v, viols, full, NAMES)
+    nrev = sum(1 for o in full if o["reversible"])
     distinct = len({json.dumps([o["from"], o["to"]], sort_keys=True) for o in full if o["reversible"]})
     v.cov = {"evaluations": nrev + fevents + cat["plans"], "distinct_nontrivial": distinct + cat["plans"],
              "rule": "engine: (current, desired) pairs whose plan is reported reversible, executed up and down on a real SQLite file (distinct by state pair); "
                      "downfile: one observation per (plan, formatter); catalog: MySQL/PostgreSQL up+down statement lists of FK-graph scenarios",
-             "engine_pairs": n, "engine_reversible_plans": nrev, "downfile_observations": fevents, "catalog_updown": cat}
+             "engine_pairs": n, "engine_reversible_plans": nrev, "inline_unique_desired_updown": info.get("inline_desired_updown", 0), "downfile_observations": fevents, "catalog_updown": cat}
     v.samples = [{"edit": engine.diffstate(o["from"], o["to"]), "up": o.get("stmts"), "down": o.get("down")} for o in full if o["reversible"] and o.get("down")][:1]
     v.assumptions = ["rows lost by a down migration (re-added columns) are not part of C17; only the schema is compared", "MySQL / PostgreSQL have no engine here: catalogue level only (tables and live foreign keys)"]
     return v.finish()
